@@ -12,7 +12,11 @@ ok = conf.get("applies") and not conf.get("tests_stable_fail") and not conf.get(
      and conf.get("demo_fails_with_patch") and not conf.get("demo_fails_without_patch")
 if not ok:
     print("NOT CONFIRMED", conf); sys.exit(1)
-r = subprocess.run([f"{V}/tools/try_mutant.sh", f"{src}/patch.diff", prop], capture_output=True, text=True)
+wt = os.environ.get("WT")
+if wt:
+    r = subprocess.run([f"{V}/tools/try_mutant_ns.sh", wt, f"{src}/patch.diff", prop], capture_output=True, text=True)
+else:
+    r = subprocess.run([f"{V}/tools/try_mutant.sh", f"{src}/patch.diff", prop], capture_output=True, text=True)
 out = r.stdout
 m = re.search(r"exit=(\d+)", out)
 rc = int(m.group(1)) if m else -1
@@ -23,7 +27,7 @@ for f in ("patch.diff", "demo.rs"):
     shutil.copy(f"{src}/{f}", f"{dst}/{f}")
 meta["breaks_property"] = prop
 meta["confirmed"] = conf
-meta["ran"] = f"tools/confirm_mutant.sh in a scratch worktree (existing tests pass with the patch; demo fails with it, passes without); tools/try_mutant.sh {prop} -> exit {rc}"
+meta["ran"] = f"tools/confirm_mutant.sh in a scratch worktree (existing tests pass with the patch; demo fails with it, passes without); {'tools/try_mutant_ns.sh (patched worktree bind-mounted over /repo in a private mount namespace)' if wt else 'tools/try_mutant.sh'} {prop} -> exit {rc}"
 meta["detected_by"] = f"checks/run {prop} quick" if rc == 1 else None
 meta["detected_as"] = whats[:3]
 if note: meta["note"] = note
